@@ -441,6 +441,56 @@ def run(ctx):
             r6.check(U.phas(n.value, '___ == security.get_project_id()'),
                      ctx.construct(gc, n), 'membership criterion without '
                      'the caller project', ctx.loc(gc, n))
+    gcfg2 = ctx.cfg(gc)
+    CALLER = 'security.get_project_id()'
+    n_ret = 0
+    for x in gcfg2.nodes:
+        if not (x.kind == 'stmt' and isinstance(x.ast, ast.Return)):
+            continue
+        v = x.ast.value
+        if v is None or (isinstance(v, ast.Constant) and v.value is None):
+            # "nothing visible": only for a non-owner asking about someone
+            # else's membership
+            r6.check(U.guarded(gcfg2, x, 'is_owner', False) and
+                     U.guarded(gcfg2, x, 'member_id', True) and
+                     U.guarded(gcfg2, x, 'member_id == ' + CALLER, False),
+                     ctx.construct(gc, extra='empty criterion'),
+                     'the empty criterion is returned for a case other than '
+                     '"non-owner asks about another member"', ctx.loc(gc))
+            continue
+        n_ret += 1
+        conj = list(v.args) if isinstance(v, ast.Call) and \
+            U.call_name(v) == 'and_' else [v]
+        alleq = all(isinstance(c, ast.Compare) and len(c.ops) == 1 and
+                    isinstance(c.ops[0], ast.Eq) for c in conj)
+        res = any(U.phas(c, '___.ResourceMember.resource_id == resource_id')
+                  for c in conj)
+        own = any(U.phas(c, '___.ResourceMember.project_id == ' + CALLER)
+                  for c in conj)
+        mem = any(U.phas(c, '___.ResourceMember.member_id == ' + CALLER)
+                  for c in conj)
+        r6.check(alleq and res and (own or mem), ctx.construct(gc, x.ast),
+                 'membership criterion is not a conjunction of equalities '
+                 'on this resource and on the caller as owner or member',
+                 ctx.loc(gc, x.ast))
+        if own:
+            r6.check(U.guarded(gcfg2, x, 'is_owner', True),
+                     ctx.construct(gc, extra='owner criterion for owners'),
+                     'the owner-side criterion is used for a non-owner '
+                     'query', ctx.loc(gc, x.ast))
+        if any(U.phas(c, '___.ResourceMember.member_id == member_id')
+               for c in conj):
+            r6.check(U.guarded(gcfg2, x, 'member_id', True),
+                     ctx.construct(gc, extra='member filter when given'),
+                     'member_id filter used although no member id was '
+                     'given', ctx.loc(gc, x.ast))
+        elif own:
+            r6.check(U.guarded(gcfg2, x, 'member_id', False),
+                     ctx.construct(gc, extra='all members only when none '
+                                   'given'),
+                     'a given member id is ignored', ctx.loc(gc, x.ast))
+    if n_ret < 3:
+        raise AnalysisError('C15.R6: _get_criterion returns lost')
 
 
 def _resolve_local(f, name):
